@@ -4,7 +4,7 @@ Correspondence + falsifier: tools/frontend_engine.py."""
 import frontend_engine as fe
 import harness
 
-GEN_UNITS = ['Encoders', 'Criteria', 'Guards']
+GEN_UNITS = ['Encoders', 'Criteria', 'Guards', 'Effects']
 EXES = []
 ASSUMPTIONS = ['expressions of the documented integer subset (+ - * // % << >> & | ^ ~ **, parentheses, decimal / hex / binary '
                'literals, names); shift counts and exponents are small non-negative literals; printable ASCII',
@@ -14,7 +14,7 @@ TRUSTED_EXTRA = ['coq/Model/Lexer.v, PyExpr.v, Parser.v: hand-written, tied to a
 CLAIM = dict(
     text='C11_lex_transparent: whatever the spelling of a constant definition, the text handed to eval is the expression tokens '
          'joined by one blank; C11_value: resolve_constants_lr succeeds exactly when every definition evaluates over the earlier '
-         'names (registers visible) and then binds each name to that value, in order; C11_number_literals: for the expression model the decimal / hexadecimal spelling of every value below 2^64 IS that number, as expression text and as an immediate operand (induction on the digit loops); C11_subst: replacing constant names by their values inside integer expressions (immediates, li, data, %hi/%lo/%position arguments) leaves the result of the whole 16-pass model unchanged, both modes (simulation through every pass); C11_char: the character literal of every '
+         'names (registers visible) and then binds each name to that value, in order; C11_number_literals: for the expression model the decimal / hexadecimal spelling of every value below 2^64 IS that number, as expression text and as an immediate operand (induction on the digit loops); C11_subst: replacing constant names by their values inside integer expressions (immediates, li, data, %hi/%lo/%position arguments) leaves the result of the whole 16-pass model unchanged, both modes (simulation through every pass); C11_subst_register (Proofs/SubstReg.v, EncReg.v): the same at REGISTER-LIKE sites -- a register field (rd / rs1 / rs2 incl. the shift amount / rd_rs1) of an instruction or a register operand of a pseudo-instruction written as a constant (`W = s0`, `SH = 3`) gives exactly the result of the operand written literally (any spelling lookup_register reads alike that is not itself a constant name), both modes, errors included; C11_encoders_read_registers_through_lookup: all 93 generated encoders read register operands through lookup_register only (per format function, swept over the generated tables); C11_subst_all composes both kinds of site; C11_subst_register_text / C11_rtype_line_subst_register from the text / token line; C11_literal_only_sites states the boundary (fence sets, aq / rl, align, numeric sequences accept a literal and refuse a constant, on the model as on the real code); C11_char: the character literal of every '
          'printable ASCII character evaluates to its code point on the model. Tie: PyExpr vs CPython (tree vs ast.parse, value vs '
          'the real Arithmetic.eval), lexer / parser correspondence. Falsifier: random expression trees with independently computed '
          'values, all 95 character literals, constants substituted at every site, both modes.',
